@@ -150,6 +150,7 @@ specs["C08"] = {"runs": c08 + [
     run("parser:Harness_parse_flaky", QT, {"R": 2}, owned=["no-panic"]),
     run("cmd/hranoprovod-cli:Harness_app_bad_input", QT, {}, owned=["no-panic"], note="whole application on malformed and unreadable files"),
     run("cmd/hranoprovod-cli:Harness_main_exit_status", QT, {}, owned=["no-panic"], note="main() under every scenario"),
+    run("cmd/hranoprovod-cli:Harness_app_cyclic_book", QT, {}, owned=["no-panic", "terminates", "cyclic-book-is-error", "acyclic-book-resolves-under-default-limit"], cover=["ran"], depth_is_violation=True, note="whole application: three cyclic books and an acyclic one x --maxdepth in {unset, -1, 0, 1, 2} x four commands that resolve the book: terminates within the call-depth cap, cyclic books are errors"),
     run("cmd/hranoprovod-cli:Harness_app_single_food_patterns", QT, {}, owned=["no-panic", "malformed-pattern-is-error", "valid-pattern-runs"], cover=["ran"], note="`register -f PATTERN` with 4 well-formed and 8 malformed regular expressions (regexp.Compile executed from its real SSA)"),
     run("cmd/hranoprovod-cli:Harness_app_settings", Q, {"full": 0}, owned=["no-panic"], note="whole application under every source combination of the settings"),
  ], "assumptions": ["implicit assertions on every explored path: nil dereference, index and slice bounds, failed type assertion, integer division by zero, explicit panic; termination = every path ends within the step and call-depth budgets"],
